@@ -1114,7 +1114,15 @@ func (a *Analyzer) stepSlice(fr *frame, x *ssa.Slice, st *State) []*State {
 			return nil
 		}
 		c := Const(n)
+		// a slice of an array this activation tree allocated is its own storage; a slice of a package-level array (or of an
+		// array behind a pointer of unknown origin) is storage that outlives the call and is shared with every other caller
 		nb := &Base{ID: a.id(), Desc: x.X.Name(), Fresh: true}
+		if pp, ok := xv.(*Ptr); ok && pp.Obj != nil && !pp.Obj.Fresh {
+			nb.Fresh = false
+			if g, isG := x.X.(*ssa.Global); isG {
+				nb.Desc = "package-level array " + g.Name()
+			}
+		}
 		if pp, ok := xv.(*Ptr); ok && pp.Obj != nil && n <= 32 {
 			nb.Elems = make([]Term, n)
 			et := ut.Elem().Underlying().(*types.Array).Elem()
